@@ -356,11 +356,88 @@ def gen_x(rng, n, kind):
     return np.sort(rng.uniform(0, 100, n) + np.arange(n) * 1e-3)
 
 
+def affine_image(pts, x, y):
+    """True when pts[:, 0] / pts[:, 1] are increasing affine images of x / y (the hull of such points has the same
+    lower vertices as the hull of (x, y): C14_rubberband_affine_invariant)."""
+    pts = np.asarray(pts, dtype=float)
+    if pts.shape != (len(x), 2):
+        return False
+    eps = float(np.finfo(float).eps)
+    for col, v in ((pts[:, 0], np.asarray(x, dtype=float)), (pts[:, 1], np.asarray(y, dtype=float))):
+        lo, hi = int(np.argmin(v)), int(np.argmax(v))
+        if v[hi] == v[lo]:
+            if np.ptp(col) != 0:
+                return False
+            continue
+        a = (col[hi] - col[lo]) / (v[hi] - v[lo])
+        if not (a > 0):
+            return False
+        dev = np.max(np.abs(col - (col[lo] + a * (v - v[lo]))))
+        if dev > 1e-6 * np.ptp(col) + 256 * eps * a * float(np.max(np.abs(v))):
+            return False
+    return True
+
+
+RB_K = 1000.0      # rubberband tolerance in calibrated units (unchanged code: < 30)
+ASPECT_X = ['uniform', 'random', 'neargap_first', 'neargap_last']
+
+
+def gen_aspect(rng, n=None):
+    """(x, y, meta): x-extent 1e-12..1e12, amplitude 1e-9..1e8, offsets of a few extents / amplitudes, evenly spaced,
+    random, or with a first / last gap 1e-13..1e-9 of the extent below a raised end point (near-vertical end edges)."""
+    if n is None:
+        n = int(rng.choice([12, 50, 300, 1000, 1000, 5000]))
+    xr = 10.0 ** rng.uniform(-12, 12)
+    amp = 10.0 ** rng.uniform(-9, 8)
+    xk = ASPECT_X[int(rng.integers(0, len(ASPECT_X)))]
+    if xk == 'uniform':
+        u = np.linspace(0, 1, n)
+    else:
+        u = np.sort(rng.uniform(0, 1, n))
+        u = (u - u[0]) / (u[-1] - u[0])
+        if np.any(np.diff(u) <= 0):
+            u = np.linspace(0, 1, n)
+    if xk == 'neargap_first':
+        u[1:] = u[1:] * (1 - 1e-3) + 1e-3
+        u[1] = 10.0 ** rng.uniform(-13, -9)
+    elif xk == 'neargap_last':
+        u[:-1] = u[:-1] * (1 - 1e-3)
+        u[-2] = 1 - 10.0 ** rng.uniform(-13, -9)
+    x = float(rng.choice([0.0, 1.0, -0.5, 5.0, 10.0])) * xr + xr * u
+    t = u
+    feat = rng.uniform(0.3, 1.5) * (t - rng.uniform(0.2, 0.8)) ** 2 + rng.uniform(-1, 1) * t
+    for _ in range(int(rng.integers(0, 4))):
+        feat = feat + rng.uniform(0.2, 1.0) * np.exp(-0.5 * ((t - rng.uniform(0, 1)) / rng.uniform(0.005, 0.05)) ** 2)
+    if rng.random() < 0.5:
+        feat = feat + rng.normal(0, 1e-3, n)
+    if xk == 'neargap_first':
+        feat[0] += rng.uniform(1, 20)
+    elif xk == 'neargap_last':
+        feat[-1] += rng.uniform(1, 20)
+    y = amp * (feat + float(rng.choice([0.0, 0.0, 3.0, -2.0, 50.0])))
+    if np.any(np.diff(x) <= 0):
+        x = float(x[0]) + xr * np.linspace(0, 1, n)
+    shift = amp * float(rng.choice([1.0, -3.0, 100.0, 1e4]))
+    return x, y, {'xkind': xk, 'x_extent': xr, 'amplitude': amp, 'shift': shift}
+
+
+def badly_scaled_witness():
+    """The input on which rubberband was not the lower hull before /repo 0f85b1f (Qhull merged points: max|y| / x-extent
+    ~ 1e12): x in metres over 40 nm, y of size 6e4.  Deterministic."""
+    n = 1000
+    t = np.linspace(0, 1, n)
+    x = np.linspace(4e-7, 4.4e-7, n)
+    y = 6e4 * (0.5 + 0.8 * (t - 0.45) ** 2 + 0.3 * t + 0.6 * np.exp(-0.5 * ((t - 0.3) / 0.02) ** 2)
+               + 0.4 * np.exp(-0.5 * ((t - 0.7) / 0.04) ** 2) + 0.01 * np.sin(37 * t))
+    return {'method': 'rubberband', 'y': y.tolist(), 'x': x.tolist(), 'shift': 1.0e4, 'data': 'badly-scaled-witness',
+            'xkind': 'metres', 'aspect': True}
+
+
 def corr_rubberband(ctx):
     rng = np.random.default_rng(ctx.seed + 1403)
     lits = []
     pts_ok = True
-    ob_pts = 'correspondence:rubberband-qhull-input==column_stack((x,y))(exact)'
+    ob_pts = 'correspondence:rubberband-qhull-input==increasing-affine-image-per-axis-of-column_stack((x,y))'
     ctx.obligations.append(ob_pts)
     for c in range(ctx.n(60, 300)):
         n = int(rng.integers(3, 60))
@@ -379,11 +456,10 @@ def corr_rubberband(ctx):
             ctx.broke('correspondence:rubberband-capture', f'{len(ch.rec)} hulls for {segs} segments')
             continue
         for i, pts in enumerate(ch.points):
-            want = np.column_stack((x[edges[i]:edges[i + 1]], y[edges[i]:edges[i + 1]]))
-            if pts.shape != want.shape or not np.array_equal(pts, want):
+            if not affine_image(pts, x[edges[i]:edges[i + 1]], y[edges[i]:edges[i + 1]]):
                 pts_ok = False
-                ctx.fail('rubberband:hull-points', 'rubberband hands qhull points that are not column_stack((x, y)) of the segment '
-                         '(the hull of other points is not the hull of the data)',
+                ctx.fail('rubberband:hull-points', 'rubberband hands qhull points that are not (an increasing affine image per axis of) '
+                         'column_stack((x, y)) of the segment (the hull of other points is not the hull of the data)',
                          {'method': 'rubberband', 'y': y.tolist(), 'x': x.tolist(), 'shift': 1.0, 'segments': segs})
         mask = np.flatnonzero(params['mask'])
         segl = '[' + '; '.join(f'({int(edges[i])}, {zlist(v)})' for i, v in enumerate(ch.rec)) + ']'
@@ -480,46 +556,70 @@ def oracle_one(ctx, case):
         x = np.array(case['x'], dtype=float)
         with CaptureHull() as ch:
             base, params = quiet(fitter(x).rubberband, y, segments=case.get('segments', 1))
-        if case.get('segments', 1) == 1 and (len(ch.points) != 1 or not np.array_equal(ch.points[0], np.column_stack((x, y)))):
-            ctx.fail('rubberband:hull-points', 'rubberband hands qhull points that are not column_stack((x, y))', case)
+        if case.get('segments', 1) == 1 and (len(ch.points) != 1 or not affine_image(ch.points[0], x, y)):
+            ctx.fail('rubberband:hull-points', 'rubberband hands qhull points that are not an increasing affine image per axis of column_stack((x, y))', case)
         if case.get('segments', 1) != 1:
             return len(ctx.violations) + len(ctx.known_hit) - before
         mask = np.asarray(params['mask'])
         if base.shape != y.shape:
             ctx.fail('rubberband:shape', 'rubberband: baseline shape differs from the data', case)
             return 1
-        # calibrated tolerance: qhull treats points within ~10 eps * max|coordinate| of a facet as coplanar (measured
-        # <= 15 units on the unchanged code over all data kinds); K = 1000 units, times (1 + steepest hull slope) to turn
-        # a perpendicular distance into a vertical one.  Any joggle / tolerance option of qhull is ~3e4 units or more.
+        # Calibrated, per-point tolerance.  qhull works on coordinates scaled to [0,1] and treats points within ~10 eps of
+        # a facet (perpendicular distance) as coplanar; the vertical deviation that allows at a point is that distance times
+        # (1 + |scaled slope|) of the hull segments around the point, times the data range.  Rounding of the data itself
+        # (interp, y + c, the scaling) adds eps * max|y| and, through the slope, eps * max|x| / x-extent.  K = 1000 such units
+        # (measured on the unchanged code: see the calibration note in the report; joggle / merge effects are >= 3e4 units).
         hull = lower_hull(x, y)
         ref = np.interp(x, x[hull], y[hull])
-        slopes = np.abs(np.diff(y[hull]) / np.diff(x[hull])) if len(hull) > 1 else np.zeros(1)
-        sfac = 1.0 + float(slopes.max())
         eps = float(np.finfo(float).eps)
-        unit = eps * max(float(np.abs(x).max()), float(np.abs(y).max()), 1e-300) * sfac
-        unit_s = eps * max(float(np.abs(x).max()), float(np.abs(y + c).max()), float(np.abs(y).max()), 1e-300) * sfac
-        tol, tol_s = 1000 * unit, 1000 * unit_s
+        xr = float(x[-1] - x[0])
+        yr = float(np.ptp(y))
+        hx, hy = x[hull], y[hull]
+        if len(hull) > 1 and yr > 0:
+            sseg = np.abs(np.diff(hy) / yr) / (np.diff(hx) / xr)
+            spad = np.concatenate(([sseg[0]], sseg, [sseg[-1]]))
+            sloc = np.maximum(np.maximum(spad[:-2], spad[1:-1]), spad[2:])        # per segment, with both neighbours
+            seg_of = np.clip(np.searchsorted(np.asarray(hull), np.arange(len(x)), side='right') - 1, 0, len(sseg) - 1)
+            s_k = sloc[seg_of]
+        else:
+            s_k = np.zeros(len(x))
+        xfac = float(np.max(np.abs(x))) / xr
+        ymax = float(np.max(np.abs(y)))
+        tol = RB_K * eps * ((ymax + yr) * (1 + s_k) + s_k * yr * xfac)
+        tol_s = RB_K * eps * ((ymax + float(np.max(np.abs(y + c))) + yr) * (1 + s_k) + s_k * yr * xfac)
+        aspect = bool(case.get('aspect'))
+        hkey = 'rubberband:badly-scaled:hull-vertices' if aspect else 'rubberband:hull'
+        bkey = 'rubberband:badly-scaled:below' if aspect else 'rubberband:below'
         if np.any(base > y + tol):
-            ctx.fail('rubberband:below', f'rubberband baseline exceeds the data by {float(np.max(base - y)):.6g} '
-                     f'(tolerance {tol:.3g} = 1000 eps max|coordinate| (1 + max hull slope))', case)
+            k = int(np.argmax((base - y) / np.maximum(tol, 1e-300)))
+            ctx.fail(bkey, f'rubberband baseline exceeds the data by {float(base[k] - y[k]):.6g} at index {k} '
+                     f'({float((base[k] - y[k]) / yr) if yr else 0:.3g} of the data range; tolerance {float(tol[k]):.3g})', case)
         if not np.array_equal(base[mask], y[mask]):
             ctx.fail('rubberband:touch', 'rubberband baseline does not pass through its hull vertices', case)
         if not (mask[0] and mask[-1]):
-            ctx.fail('rubberband:ends', 'rubberband mask misses the first or last point', case)
+            ctx.fail('rubberband:ends', 'rubberband mask misses the first or last point (always vertices of the lower hull)', case)
         idx = np.flatnonzero(mask)
-        xs, ys = x[idx], y[idx]
         if len(idx) >= 3:
-            cross = (xs[1:-1] - xs[:-2]) * (ys[2:] - ys[1:-1]) - (xs[2:] - xs[1:-1]) * (ys[1:-1] - ys[:-2])
-            xscale = float(np.max(np.abs(x))) + 1.0
-            if np.any(cross < -1e-9 * scale * xscale):
-                ctx.fail('rubberband:convex', f'rubberband baseline is not convex (min cross product {float(cross.min()):.6g})', case)
-        if not np.allclose(base, ref, rtol=0, atol=tol):
-            ctx.fail('rubberband:hull', f'rubberband baseline differs from the lower convex hull computed in exact rationals '
-                     f'(max diff {float(np.max(np.abs(base - ref))):.6g}, tolerance {tol:.3g})', case)
+            # convexity of the kept vertices, decided exactly (the data are exact binary rationals)
+            P = [(Fraction(float(x[i])), Fraction(float(y[i]))) for i in idx]
+            bad = [int(idx[j + 1]) for j in range(len(P) - 2)
+                   if (P[j + 1][0] - P[j][0]) * (P[j + 2][1] - P[j + 1][1]) - (P[j + 2][0] - P[j + 1][0]) * (P[j + 1][1] - P[j][1]) < 0]
+            # a reflex kept vertex must be within the tolerance of the hull (qhull keeps nearly-coplanar points)
+            bad = [i for i in bad if y[i] - ref[i] > tol[i]]
+            if bad:
+                ctx.fail('rubberband:convex', f'rubberband baseline is not convex at kept vertices {bad[:5]}', case)
+        dev = np.abs(base - ref)
+        if np.any(dev > tol):
+            k = int(np.argmax(dev / np.maximum(tol, 1e-300)))
+            ctx.fail(hkey, f'rubberband baseline differs from the lower convex hull computed in exact rationals by {float(dev[k]):.6g} '
+                     f'at index {k} ({float(dev[k] / yr) if yr else 0:.3g} of the data range; tolerance {float(tol[k]):.3g}); '
+                     f'{int(mask.sum())} kept vertices, exact hull has {len(hull)}', case)
         shifted = quiet(fitter(x).rubberband, y + c)[0]
-        if not np.allclose(shifted, base + c, rtol=0, atol=tol_s):
-            ctx.fail('rubberband:shift', f'rubberband(y + c) != rubberband(y) + c, c={c!r} '
-                     f'(max diff {float(np.max(np.abs(shifted - base - c))):.6g}, tolerance {tol_s:.3g})', case)
+        dev = np.abs(shifted - base - c)
+        if np.any(dev > tol_s):
+            k = int(np.argmax(dev / np.maximum(tol_s, 1e-300)))
+            ctx.fail('rubberband:badly-scaled:shift' if aspect else 'rubberband:shift',
+                     f'rubberband(y + c) != rubberband(y) + c, c={c!r} (diff {float(dev[k]):.6g} at index {k}, tolerance {float(tol_s[k]):.3g})', case)
     return len(ctx.violations) + len(ctx.known_hit) - before
 
 
@@ -527,6 +627,13 @@ def oracle(ctx, budget):
     rng = np.random.default_rng(ctx.seed + 1404)
     ncase = 260 * budget
     exc = 0
+    # fixed replayed input: rubberband was not the lower hull on it before /repo 0f85b1f
+    wit = badly_scaled_witness()
+    try:
+        oracle_one(ctx, wit)
+        ctx.case(('oracle', 'witness', 'badly-scaled'), nontrivial=True, kind='oracle:rubberband:badly-scaled-witness')
+    except Exception as e:
+        ctx.fail('rubberband:badly-scaled:raised', f'rubberband raised {type(e).__name__}: {e} on x = linspace(4e-7, 4.4e-7, 1000), y ~ 6e4', wit)
     for cidx in range(ncase):
         kind = KINDS[cidx % len(KINDS)]
         slot = (cidx // len(KINDS)) % 8
@@ -560,7 +667,15 @@ def oracle(ctx, budget):
                     'pad_kwargs': PAD_KW[int(rng.integers(0, len(PAD_KW)))], 'shift': shift, 'data': kind}
             nontriv = True
             label = f'oracle:snip:order{case["filter_order"]}:{"dec" if case["decreasing"] else "inc"}'
-        elif cidx % 2:
+        elif cidx % 3 == 0:
+            # aspect-ratio stress: x-extent and amplitude across 24 / 17 decades, near-vertical end edges, N up to 5000
+            xs_, ys_, meta = gen_aspect(rng)
+            case = {'method': 'rubberband', 'y': ys_.tolist(), 'x': xs_.tolist(), 'shift': meta['shift'],
+                    'data': 'aspect', 'xkind': meta['xkind'], 'x_extent': meta['x_extent'], 'amplitude': meta['amplitude'],
+                    'aspect': True}
+            nontriv = True
+            label = f'oracle:rubberband:aspect:{meta["xkind"]}'
+        elif cidx % 3 == 1:
             # scale-ratio data: largest coordinate 1e5..1e9 times the depth of the shallow convex parts
             sk = SCALE_KINDS[(cidx // 2) % len(SCALE_KINDS)]
             n = int(rng.choice([300, 600, 1000]))
@@ -594,7 +709,9 @@ def run(ctx):
                 'on +-1e5..1e6)/tiny (1e-3 features, shifts up to +-1e6); rubberband additionally scale-ratio kinds (N 300..1000): smooth noise-free '
                 'shallow-convex backgrounds with x in wavenumbers 400..4000 and y ~1e-3, the same with 1e-9 noise, order-one data on offsets '
                 '1e5..1e6, unevenly spaced x in 1000..4000, compared with an exact-rational lower hull within 1000 eps max|coordinate| '
-                '(1 + steepest hull slope) (unchanged code measured <= 15 such units; qhull joggle/tolerance options are >= 3e4); '
+                '(1 + local scaled hull slope) per point; aspect-ratio stress: x-extent 1e-12..1e12, amplitude 1e-9..1e8, uniform / random / near-vertical '
+                'first or last edge (gap 1e-13..1e-9 of the extent under a raised end point), N 12..5000, plus the fixed badly-scaled witness '
+                'x = linspace(4e-7, 4.4e-7, 1000), y ~ 6e4; '
                 'operator correspondence: N 1..30 with half windows 1..N+3 (40) plus large cases up to N=200, h=150 '
                 '(2h+1 > N included), 2-D up to 8x9 with half windows up to 10; float correspondence: tophat/mor/imor '
                 '(N 1..40, exit and no-exit runs), snip (N 3..40, orders 2/4/6/8, both directions, asymmetric and clipped '
